@@ -26,6 +26,8 @@ func newMIDPool(min, max int32) midPool {
 	return &simpleMidPool{
 		min: min,
 		max: max,
+		// every identifier of (min-1, max] is free
+		intervals: []interval{{from: min - 1, to: max}},
 	}
 }
 
@@ -33,12 +35,7 @@ func (m *simpleMidPool) Get() int32 {
 	m.mtx.Lock()
 	defer m.mtx.Unlock()
 	if len(m.intervals) == 0 {
-		m.intervals = []interval{
-			{from: m.min, to: m.max},
-		}
-		return m.min
-	}
-	if m.intervals[0].from == m.max {
+		// every identifier is outstanding
 		return -1
 	}
 	m.intervals[0].from++
@@ -55,6 +52,10 @@ func (m *simpleMidPool) Put(mid int32) {
 	m.mtx.Lock()
 	defer m.mtx.Unlock()
 
+	if len(m.intervals) == 0 {
+		m.intervals = []interval{{from: mid - 1, to: mid}}
+		return
+	}
 	idx := sort.Search(len(m.intervals), func(i int) bool {
 		return m.intervals[i].from >= mid
 	})
